@@ -18,6 +18,7 @@ CONSTANTS
   DEV_HiBkgIgnored = FALSE
   DEV_UnlistedDisabledOnline = FALSE
   DEV_LoadContactsClobbers = FALSE
+  DEV_NewGrpNoSupd = FALSE
   DEV_StaleAcrossReload = FALSE
   Kinds = {"me", "grp", "member", "mute"}
   MaxMbox = 3
